@@ -234,6 +234,16 @@ def sibling_operations(doc_t: Dict[str, Any]) -> List[Tuple[str, Dict[str, Any],
                 ptr.resolve(doc)
             except BaseException:  # noqa: BLE001
                 resolves = False
+            if not resolves and tok.lstrip("-").isdigit():
+                # "addap differs only in appending when the array index cannot be resolved": an index that names no element -
+                # at or past the end, or further below zero than the array is long - appends, as add at "-" does
+                want = apply("add", JSONPointer.from_parts(path + ["-"], unicode_escape=False))
+                got = apply("addap", ptr)
+                if got != want:
+                    kind = "negative-index" if tok.startswith("-") else "index"
+                    out.append((f"addap-does-not-append-at-an-unresolvable-index|{kind}", {"doc": show(doc_t), "pointer": str(ptr), "add-at-dash": str(want)[:200], "addap": str(got)[:200]},
+                                "addap does not append"))
+                    return out
             for op in ("addne",) + (("addap",) if resolves else ()):
                 got = apply(op, ptr)
                 if got != base:
